@@ -133,7 +133,7 @@ theorem toRat_eq {x : ER} (hn : x.num.neg = false) (hd : x.den.neg = false) :
   rw [toInt_nonneg_of hn, toInt_nonneg_of hd]
   split <;> simp
 
-/-- normalize(): same value, lowest terms, positive denominator, and (commit 535b52e) no sign on a zero numerator. -/
+/-- normalize(): same value, lowest terms, positive denominator, and (commit 5d744db) no sign on a zero numerator. -/
 theorem normalize_spec {x : ER} (hx : ERCanon x) :
     toRat (normalize x) = toRat x ∧ ERCanon (normalize x) ∧
     (normalize x).neg = (if EDec.toNat (normalize x).num.d = 0 then false else x.neg) ∧
